@@ -220,6 +220,9 @@ class ResendRule(BaseRule):
             return [Out("normal", s, const(None))]
         if t == "bool" and pos:
             return ret(AV("unk", truth=pos[0].truth, none=False, sym=pos[0].sym))
+        if isinstance(f, ast.Attribute) and f.attr == "startswith" and recv is not None and recv.sym == "p:url" and pos and pos[0].kind == "const":
+            # a test on the string the caller gave (selects origin-form vs absolute-form handling); stable symbol so the path remembers it
+            return ret(AV("unk", sym=f"given-url.startswith({pos[0].val!r})"))
         # exception constructors keep their class
         q = it.resolve_callee(node, recv)
         if q and it.m.is_exception_class(q):
